@@ -17,7 +17,10 @@ open AcmedVerif.Hooks AcmedVerif.Spec.C10
 
 /-- The hook list of a certificate/account is the concatenation, in declaration order, of the
 expansion of each listed name; the first name that fails decides the error; a hook shadows a group of
-the same name; a group is replaced, in place, by the expansions of its members in their order. -/
+the same name; a group that is accepted is replaced, in place, by the expansions of its members in
+their order (a group may also be refused since 537f12e / a9033b3 — nested too deeply, too many members
+visited — which is why this is stated for accepted names: before those repairs it was an equation,
+`getHook … n = mapCat (expand … [n]) g.hooks`, which is false of the current code). -/
 theorem expand_order (hooks : List Hook) (groups : List Group) (names : List Name) :
     (∀ r, expandAll hooks groups names = .ok r ↔
       ∃ parts : List (List Hook),
@@ -26,17 +29,22 @@ theorem expand_order (hooks : List Hook) (groups : List Group) (names : List Nam
       ∃ pre n post, names = pre ++ n :: post ∧ (∀ m ∈ pre, ∃ r, getHook hooks groups m = .ok r) ∧
         getHook hooks groups n = .error e) ∧
     (∀ n h, findHook hooks n = some h → getHook hooks groups n = .ok [h]) ∧
-    (∀ n g, findHook hooks n = none → findGroup groups n = some g →
-      getHook hooks groups n = mapCat (expand hooks groups (enoughFuel groups) [n]) g.hooks) := by
+    (∀ n g r, findHook hooks n = none → findGroup groups n = some g → getHook hooks groups n = .ok r →
+      mapCat (expand hooks groups (enoughFuel groups) [n]) g.hooks = .ok r) := by
   refine ⟨fun r => mapCat_ok_iff _ _ _, fun e => mapCat_error_iff _ _ _, ?_, ?_⟩
   · intro n h hh
-    simp only [getHook, enoughFuel, expand_succ, hh]
-  · intro n g hh hg
-    simp only [getHook, enoughFuel, expand_succ, hh, hg, List.not_mem_nil, if_false]
+    have hpos : maxMembers = (maxMembers - 1) + 1 := by decide
+    simp only [getHook, getHookFuel, enoughFuel]
+    rw [hpos, expandB_succ]
+    simp only [hh, dropBudget]
+  · intro n g r hh hg hr
+    have h1 := getHookFuel_ok_expand hr
+    simp only [enoughFuel, expand_succ, hh, hg, List.not_mem_nil, if_false] at h1
+    rw [← h1]
     apply mapCat_congr
     intro m _
-    exact (expand_stable hooks groups groups.length [n] m
-      ((PathInv.nil groups).cons List.not_mem_nil hg) (by simp)).symm
+    exact expand_stable hooks groups groups.length [n] m
+      ((PathInv.nil groups).cons List.not_mem_nil hg) (by simp)
 
 /-- Concatenating two name lists concatenates their expansions. -/
 theorem expand_order_append (hooks : List Hook) (groups : List Group) (a b : List Name)
@@ -47,27 +55,103 @@ theorem expand_order_append (hooks : List Hook) (groups : List Group) (a b : Lis
   rw [mapCat_append, ha, hb]
 
 /-- `#groups + 1` units of fuel are enough for every configuration: more fuel changes nothing and
-the model's own `fuel` error never comes out. -/
+the model's own `fuel` error never comes out; and what is accepted is what the names denote (`expand`,
+the expansion without the two limits). -/
 theorem expand_total (hooks : List Hook) (groups : List Group) (fuel : Nat)
     (hf : enoughFuel groups ≤ fuel) :
-    (∀ n, expand hooks groups fuel [] n = getHook hooks groups n) ∧
+    (∀ n, getHookFuel hooks groups fuel n = getHook hooks groups n) ∧
     (∀ n, getHook hooks groups n ≠ .error .fuel) ∧
     (∀ names, expandAllFuel hooks groups fuel names = expandAll hooks groups names) ∧
-    (∀ names, expandAll hooks groups names ≠ .error .fuel) := by
-  have h1 : ∀ n, expand hooks groups fuel [] n = getHook hooks groups n := by
+    (∀ names, expandAll hooks groups names ≠ .error .fuel) ∧
+    (∀ n r, getHook hooks groups n = .ok r → expand hooks groups fuel [] n = .ok r) := by
+  have h1 : ∀ n, getHookFuel hooks groups fuel n = getHook hooks groups n := by
     intro n
     obtain ⟨k, rfl⟩ := Nat.exists_eq_add_of_le hf
-    exact expand_stable_add hooks groups (enoughFuel groups) [] n (PathInv.nil groups)
-      (by simp [enoughFuel]) k
-  have h2 : ∀ n, getHook hooks groups n ≠ .error .fuel := fun n =>
-    expand_no_fuel_error hooks groups (enoughFuel groups) [] n (PathInv.nil groups)
-      (by simp [enoughFuel])
-  refine ⟨h1, h2, ?_, ?_⟩
+    simp only [getHook, getHookFuel]
+    rw [expandB_stable_add hooks groups (enoughFuel groups) [] _ n (PathInv.nil groups)
+      (by simp [enoughFuel]) k]
+  have h2 : ∀ n, getHook hooks groups n ≠ .error .fuel := fun n h =>
+    expandB_no_fuel_error hooks groups (enoughFuel groups) [] _ n (PathInv.nil groups)
+      (by simp [enoughFuel]) (dropBudget_error h)
+  refine ⟨h1, h2, ?_, ?_, ?_⟩
   · intro names
     exact mapCat_congr names (fun n _ => h1 n)
   · intro names h
     obtain ⟨n, _, hn⟩ := mapCat_error_mem h
     exact h2 n hn
+  · intro n r hr
+    rw [← h1 n] at hr
+    exact getHookFuel_ok_expand hr
+
+/-- The two limits of `get_hook_rec` (537f12e, a9033b3): whatever one `Config::get_hook` returns has at
+most MAX_HOOK_GROUP_MEMBERS hooks — each hook returned was charged to the budget (`|r| + left ≤ budget`
+at every level) — and is what the name denotes without the limits. -/
+theorem expand_limits (hooks : List Hook) (groups : List Group) :
+    (∀ fuel path budget n r left, expandB hooks groups fuel path budget n = .ok (r, left) →
+      r.length + left ≤ budget ∧ expand hooks groups fuel path n = .ok r) ∧
+    (∀ n r, getHook hooks groups n = .ok r → r.length ≤ maxMembers) := by
+  have key : ∀ fuel path budget n r left, expandB hooks groups fuel path budget n = .ok (r, left) →
+      r.length + left ≤ budget := by
+    intro fuel
+    induction fuel with
+    | zero => intro path budget n r left h; simp [expandB] at h
+    | succ k ih =>
+      intro path budget n r left h
+      rw [expandB_succ] at h
+      cases budget with
+      | zero => simp at h
+      | succ budget =>
+        simp only at h
+        cases hh : findHook hooks n with
+        | some x =>
+          simp only [hh, Except.ok.injEq, Prod.mk.injEq] at h
+          obtain ⟨rfl, rfl⟩ := h
+          simp only [List.length_singleton]; omega
+        | none =>
+          simp only [hh] at h
+          cases hg : findGroup groups n with
+          | none => simp [hg] at h
+          | some g =>
+            simp only [hg] at h
+            by_cases hp : n ∈ path
+            · simp [hp] at h
+            · simp only [hp, if_false] at h
+              by_cases hd : path.length ≥ maxDepth
+              · simp [hd] at h
+              · simp only [hd, if_false] at h
+                have loop : ∀ (ns : List Name) (b : Nat) (r : List Hook) (left : Nat),
+                    mapCatB (expandB hooks groups k (n :: path)) ns b = .ok (r, left) → r.length + left ≤ b := by
+                  intro ns
+                  induction ns with
+                  | nil =>
+                    intro b r left h'
+                    simp only [mapCatB, Except.ok.injEq, Prod.mk.injEq] at h'
+                    obtain ⟨rfl, rfl⟩ := h'; simp
+                  | cons a ns ihn =>
+                    intro b r left h'
+                    simp only [mapCatB] at h'
+                    cases ha : expandB hooks groups k (n :: path) b a with
+                    | error e => simp [ha] at h'
+                    | ok res =>
+                      obtain ⟨hs, b₁⟩ := res
+                      simp only [ha] at h'
+                      cases hm : mapCatB (expandB hooks groups k (n :: path)) ns b₁ with
+                      | error e => simp [hm] at h'
+                      | ok res' =>
+                        obtain ⟨rest, b₂⟩ := res'
+                        simp only [hm, Except.ok.injEq, Prod.mk.injEq] at h'
+                        obtain ⟨rfl, rfl⟩ := h'
+                        have h1 := ih (n :: path) b a hs b₁ ha
+                        have h2 := ihn b₁ rest b₂ hm
+                        simp only [List.length_append]; omega
+                have := loop g.hooks budget r left h
+                omega
+  refine ⟨fun fuel path budget n r left h =>
+    ⟨key fuel path budget n r left h, expandB_ok_expand hooks groups fuel path budget n r left h⟩, ?_⟩
+  intro n r h
+  obtain ⟨b, hb⟩ := dropBudget_ok h
+  have := key _ _ _ _ _ _ hb
+  omega
 
 /-- A listed name from which a cycle of groups can be reached makes the whole list fail (with any
 amount of fuel) … -/
@@ -78,10 +162,10 @@ theorem expand_rejects_cycles (hooks : List Hook) (groups : List Group) (names :
   constructor
   · intro fuel r h
     obtain ⟨r', hr'⟩ := mapCat_ok_mem h s hs
-    exact expand_cycle_not_ok hreach hcyc fuel [] r' hr'
+    exact expand_cycle_not_ok hreach hcyc fuel [] r' (getHookFuel_ok_expand hr')
   · intro r h
     obtain ⟨r', hr'⟩ := mapCat_ok_mem h s hs
-    exact expand_cycle_not_ok hreach hcyc _ [] r' hr'
+    exact expand_cycle_not_ok hreach hcyc _ [] r' (getHookFuel_ok_expand hr')
 
 /-- … and the "hook group contains itself" error is only ever raised for a real cycle reachable from
 a listed name. -/
@@ -89,7 +173,7 @@ theorem expand_cycle_error_is_real (hooks : List Hook) (groups : List Group) (na
     (n : Name) (h : expandAll hooks groups names = .error (.cycle n)) :
     ∃ s ∈ names, Star hooks groups s n ∧ Plus hooks groups n n := by
   obtain ⟨s, hs, he⟩ := mapCat_error_mem h
-  exact ⟨s, hs, expand_cycle_error_sound _ [] s n (fun _ hp => by cases hp) he⟩
+  exact ⟨s, hs, expandB_cycle_error_sound _ [] _ s n (fun _ hp => by cases hp) (dropBudget_error he)⟩
 
 /-! ## `hooks::call` (clauses C10.1 and C10.3) -/
 
